@@ -7,44 +7,65 @@ ENTRY = {'coq_dir': 'C13',
  'nontrivial_min_trace': 40,
  'rule': 'seeded random histories (3-50 stimuli quick, 5-120 thorough) over <=4 peers; 45% dialogue-shaped (the generator tracks a rough '
          'estimate of connections, open commands, carriers and waiting inbound requests so that most stimuli hit), the rest in four random '
-         'styles (outbound-, dial-, inbound-heavy, uniform): send_request with Dial/Reject, cancel_request, '
-         'send_response/send_response_with_feedback/reject_request, ConnectionEstablished (also with a dead command '
-         'channel, or one with room for only k substream-open commands so that open_substream succeeds for the first k requests queued '
-         'behind the dial and fails for the others)/ConnectionClosed/DialFailure/SubstreamOpened/SubstreamOpenFailure in any order, carriers that block, accept or fail '
-         'writes, remote responses/EOF/reset, clock advances across the request timeout, inbound substreams with and without a bound (also '
-         'several request frames on one inbound substream), payload lengths {0,1,2,7,max-1,max,max+1}; the real RequestResponseProtocol '
-         'over a real TransportService is single-stepped until idle after every stimulus, and the user-visible events, the frames that '
-         'reached the remote end and the sorted private bookkeeping (peers/active/active_inbound, pending_dials, pending_outbound, cancel '
-         'handles, the three future counts) are compared with the extracted Coq model after every stimulus; non-trivial = trace of >= 40 '
-         'numbers; distinct = distinct (case, trace) pairs',
- 'trusted_base': ['the single-step shim VerifProtocol::step is a cfg-gated COPY of the select! of RequestResponseProtocol::run (same arms, '
-                  'same biased order, plus an idle arm); a change to the arms of run itself is not seen by the harness, changes to every '
-                  'handler are',
+         'styles. Stimuli: send_request / send_request_with_fallback with Dial/Reject (also to the local peer id and after the manager was '
+         'dropped), bursts of try_send_request against a command channel of capacity 1-3, cancel_request, send_response / '
+         'send_response_with_feedback / reject_request, ConnectionEstablished (also with a dead command channel, or one with room for only '
+         'k substream-open commands so that open_substream succeeds for the first k requests queued behind the dial and fails for the '
+         'others), ConnectionClosed, DialFailure, SubstreamOpened (negotiated with the main or a fallback name) / SubstreamOpenFailure in '
+         'any order, carriers that block, accept or fail writes, remote responses / EOF / reset / oversize frames, clock advances across '
+         'the request timeout, a response (or a cancel) and the timeout made ready at the same instant (the order the implementation chose '
+         'is observed and handed to the model), inbound substreams with and without a bound (several request frames on one substream, '
+         'several peers), payload lengths {0,1,2,7,max-1,max,max+1}. Every case is run on three fresh protocol objects: (A) the REAL '
+         'RequestResponseProtocol::run future polled by hand on a paused clock - its events are the ones printed and judged; (B) the '
+         'cfg-gated single-step copy of the loop, which supplies the sorted private bookkeeping after every stimulus '
+         '(peers/active/active_inbound, pending_dials, pending_outbound, cancel handles, the three future counts); (C) the real run with '
+         'an event channel of capacity 1, the loop parking inside handlers until the user drains; any difference between A and B or C is '
+         'marked in the trace. User-visible events, OpenSubstream commands, frames that reached the remote end and the dumps are compared '
+         'with the extracted Coq model after every stimulus; non-trivial = trace of >= 40 numbers; distinct = distinct (case, trace) pairs',
+ 'trusted_base': ['the real event loop run() is driven directly (hand-polled future); the cfg-gated single-step copy VerifProtocol::step '
+                  'is used only for the bookkeeping dumps and is compared with the real loop on every stimulus',
                   'environment of the model = the scripted harness: transport events arrive only through TransportService, the remote side '
                   'answers a request only after the whole request frame arrived, TransportManagerHandle::dial succeeds exactly for peers '
-                  'with a known address (the manager itself is not run; its dial bookkeeping is C05/C06)',
-                  'tokio paused clock drives request timeouts; clock advances are chosen so that no deadline is hit exactly',
+                  'with a known address while the manager lives (the manager itself is not run; its dial bookkeeping is C05/C06; '
+                  'ImmediateDialError::AlreadyConnected / ChannelClogged of the manager are not reachable in this harness), scripted '
+                  'connections read their command channel after the loop has come to rest',
+                  'tokio paused clock drives request timeouts; clock advances are chosen so that no deadline is hit exactly; when a '
+                  "response and a timeout are ready at once tokio's unbiased select! decides - the harness observes the outcome and reruns "
+                  'the twin objects until they made the same choice',
                   "in-memory carrier under the crate's Substream type (Substream::verif_new); framing itself is C04's subject"],
  'level_text': 'Proof: for every sequence of stimuli (user commands, transport-service events in any order, carrier events of the remote '
-               'side, clock advances) the model of the event loop emits at most one terminal event per request id (C13_at_most_one); once '
-               'no dial, no substream opening and no request future is outstanding every request id handed out has exactly one terminal '
-               'event unless the user asked to cancel it (C13_exactly_one; ledger invariant: an unanswered id waits in pending_dials or is '
-               'in peers[..].active, and an active id has a pending_outbound entry or an in-flight future); a ResponseReceived(rid, bytes) '
-               'is caused only by the remote side answering exactly those bytes on a carrier that on_outbound_substream had handed to '
-               "rid's future, carriers and request ids are paired one-to-one (C13_payload: no cross-talk between concurrent requests); a "
-               'RequestReceived is caused only by a request frame on an inbound carrier, carries its bytes, and no carrier yields two '
-               '(C13_responder_once); the inbound bound is an invariant (C13_inbound_bound). The model is tied to mod.rs/handle.rs by a '
-               'per-stimulus differential run of the real protocol object with full bookkeeping dumps; the oracle prop_ok re-judges all '
-               "clauses on the implementation's traces.",
+               'side, clock advances) the model of the event loop emits at most one terminal event per request id (C13_at_most_one). '
+               'Exactly one: C13_exactly_one_contract states the premise as a transport contract - a ghost ledger computed from the '
+               'stimuli and from the calls the protocol makes (dial accepted, open_substream accepted, carrier handed to a request future) '
+               "records what the environment still owes (an answer to every dial, an answer to every open or the peer's ConnectionClosed, "
+               'for every carrier a terminal event of its request or the passing of the request timeout); once that is discharged every '
+               'accepted send_request has exactly one terminal event unless the user asked to cancel it (C13_exactly_one and '
+               'C13_exactly_one_settled give the same with premises on the final state; ledger invariants: an unanswered id waits in '
+               'pending_dials or is in peers[..].active, an active id has a pending_outbound entry or an in-flight future, and every such '
+               'entry is covered by the ghost ledger). Matching payload: a ResponseReceived(rid, bytes) is caused only by the remote side '
+               "answering exactly those bytes on a carrier that on_outbound_substream had handed to rid's future, carriers and request ids "
+               'are paired one-to-one (C13_payload), and the request frame that reached the remote end of that carrier is the request '
+               'given to send_request for rid or its fallback variant (C13_request_wire). A RequestReceived is caused only by a request '
+               'frame on an inbound carrier, carries its bytes, and no carrier yields two (C13_responder_once); the inbound bound is an '
+               'invariant for every interleaving of peers (C13_inbound_bound); send_response_with_feedback reports () only in a step in '
+               'which a response frame went out (C13_feedback); a bounded event channel with a parking producer loses, duplicates and '
+               'reorders nothing (C13_channel_nothing_lost); a dial refused at once yields its single RequestFailed and queues nothing '
+               '(C13_dial_refused_one_failure). The model is tied to mod.rs/handle.rs by a per-stimulus differential run of the real run() '
+               "loop with full bookkeeping dumps; the oracle prop_ok re-judges the clauses of the property text on the implementation's "
+               'traces.',
  'level_note': 'The unrepaired code violated the property (F-C13a: a second request to a peer that is still being dialed overwrote '
                'pending_dials[peer]; the first request never got an outcome; C13_unrepaired_refuted) - repaired by a fix: commit, witness '
-               'kept in corpus/C13. Not modelled: fallback protocol names (would need a hook parameter), a full event/command channel '
-               'parking the loop (.await inside handlers), partial frames (C04), a DialPeer command silently refused by the manager '
-               '(F-C05c: then a dial stays outstanding forever and the quiescence premise never holds). Not theorems (modelled, diffed and '
-               'oracle-checked only): the frame written on the carrier bound to rid is byte-identical to the request given to '
-               'send_request; the feedback of send_response_with_feedback is () only when the response frame went out.',
+               'kept in corpus/C13. Modelled since round 3: fallback protocol names, bursts against a bounded command channel (ids burned '
+               'by ChannelClogged), a bounded event channel (third run with capacity 1), dial() refused with TriedToDialSelf / TaskClosed '
+               '/ NoAddressAvailable, a response racing with the timeout or with a cancel, send_response after the peer disconnected. Not '
+               'modelled: partial frames (C04), dropping the RequestResponseHandle (the loop exits; nobody is left to observe), a DialPeer '
+               'command silently refused by the manager later on (F-C05c: then a dial stays owed forever and the contract premise never '
+               'holds). Timeouts are events that fire when the clock passes their deadline; the request timeout must be positive for '
+               'C13_exactly_one_contract (it is 5 s in the source).',
  'assumptions': ['request ids come from the shared allocator (send_request/try_send_request), never chosen by the user',
-                 'quiescence (no pending dial, no substream being opened, no request future in flight) is a premise of exactly-one: every '
-                 'dial is eventually answered by ConnectionEstablished or DialFailure, every open_substream by SubstreamOpened or '
-                 'SubstreamOpenFailure, every future ends (response, EOF, timeout)',
-                 'HashMap/FuturesUnordered iteration order is not observable (events of one step and dumps are sorted)']}
+                 'C13_exactly_one_contract: the environment discharges what it owes - every accepted dial is answered by '
+                 'ConnectionEstablished or DialFailure, every accepted open_substream by SubstreamOpened, SubstreamOpenFailure or the '
+                 "peer's ConnectionClosed, and every carrier handed to a request future sees a terminal event of its request or the "
+                 'request timeout (> 0) passes',
+                 'HashMap/FuturesUnordered iteration order is not observable (events of one step and dumps are sorted); the order in which '
+                 "tokio's select! looks at two simultaneously ready branches is an input of the model"]}
